@@ -193,6 +193,7 @@ type VC struct {
 	pureCache map[string][]Val
 	entries  map[string]*replayEntry // per verified run: the symbolic inputs, for replay
 	houdini  *houdiniHook
+	ghostImgs map[string]*Cell // ghost pixel store of symbolic draw.Image values, by identity
 	autoBusy bool
 	autoLoops map[string]*LoopContract
 	divCache map[string]Term
